@@ -123,7 +123,6 @@ func (c01) pipe(f []string) string {
 		out  []string
 	}
 	var cs []*cconn
-	var nreq int
 	ln, err := net.Listen("tcp", "127.0.0.1:0")
 	if err != nil {
 		return "sockerr"
@@ -218,7 +217,7 @@ func (c01) pipe(f []string) string {
 		if !ok {
 			return "bad-op"
 		}
-		nreq = n
+		want := n // this connection's own number of requests (the readers run while later connections are set up)
 		cc := &cconn{c: c, done: make(chan struct{})}
 		cs = append(cs, cc)
 		wg.Add(1)
@@ -243,8 +242,8 @@ func (c01) pipe(f []string) string {
 			defer close(cc.done)
 			dec := redis.VerifNewDecoder(c, 4096)
 			for {
-				d := 1500 * time.Millisecond
-				if len(cc.out) >= nreq {
+				d := 4 * time.Second // generous: a loaded machine must not look like a lost reply
+				if len(cc.out) >= want {
 					d = 120 * time.Millisecond
 				}
 				c.SetReadDeadline(time.Now().Add(d))
@@ -256,7 +255,7 @@ func (c01) pipe(f []string) string {
 					return
 				}
 				cc.out = append(cc.out, hx.Render(v))
-				if len(cc.out) > nreq+8 {
+				if len(cc.out) > want+8 {
 					return
 				}
 			}
